@@ -26,6 +26,10 @@ TABLE = {
             'Permutation-sign value and raise-iff-outside-domain are decided for all index tuples in the box, the accepted Grid tags are shown to be exactly the 16 documented '
             'strings (symbolic string), the K_n derivative rule holds for every integer order; Dirac tables are checked in exact arithmetic.',
             'Index box bounded ([-1,5], thorough [-3,8]); K_n uninterpreted with K_{-n}=K_n; re-exported autograd.scipy.special functions outside.'),
+    'C02': (True, 'symbolic execution of gamma_method (Gamma(t) abstraction point, symbolic S/tau_exp/N_sigma/eps/tiny) + per-path SMT equivalence with Wolff formulas; ast2smt padding/index lemmas for the FFT branch',
+            'Compositional: Gamma(t) of the real _calc_gamma equals the pair-normalised autocorrelation sum for all fluctuations; every output of the real windowing / bias / '
+            'drho / tail / S=0 code equals the paper formula on every path for all Gamma values and parameters; the FFT padding lemma holds for all integers.',
+            'Real-number semantics; FFT numerics trusted (padding lemma + correlation theorem); chain length bounded (w_max <= 5, thorough 8/10); exp/log/sqrt uninterpreted with lemmas.'),
 }
 
 NOT_YET = 'check not built yet in this session (work in progress; see DESIGN.md section 4 for the plan)'
